@@ -1,7 +1,8 @@
 """C05 — inbound publishes acked correctly; QoS 2 surfaces exactly once."""
 
 PROP = {'areas': [{'area': 'engine',
-            'corpus': ['corpus/engine/d11_half_encoded_connect_service_time.script',
+            'corpus': ['corpus/engine/c05_qos2_resume_duplicate_release.script',
+                       'corpus/engine/d11_half_encoded_connect_service_time.script',
                        'corpus/engine/d12_keep_alive_one_second.script',
                        'corpus/engine/d14_close_with_queued_disconnect.script',
                        'corpus/engine/d21_slow_start_failed_attempt.script',
@@ -37,11 +38,24 @@ META = {'design_ref': 'DESIGN.md section 7 / C05',
  'level_note': 'Trusted: Coq kernel; the tie (facade engine.rs, harness, OCaml driver incl. the generator); the reference codec used by the simulated broker '
                '(SpecDecodeC2S / SpecEncodeS2C); abstract component hypotheses of the engine theorems (no-panic of codec / validators / resolvers) are '
                'discharged in the codec / validation / alias developments or stated as premises.',
- 'level_text': 'Coq theorems for every state: QoS 1 publish surfaces once and queues exactly one PUBACK(id) at the back of the high-priority queue; QoS 2 '
-               'first delivery surfaces and is remembered, a duplicate of an unreleased id is acknowledged but not surfaced, PUBREL releases the id and queues '
-               'PUBCOMP; the set survives connection close (C05_close_keeps_inbound_qos2) and a session-present CONNACK and is forgotten by a session-absent '
-               'CONNACK (C05_session_decides_memory); ack order on the wire and exactly-once surfacing over whole histories (a QoS 2 id received and not yet released is never surfaced again, also across '
-               'session-resuming reconnects; every other publish is surfaced once, in wire order) are the monitors mon_c05_acks / mon_c05_deliver on the '
-               'implementation trace, against a simulated broker that keeps its inbound QoS 2 session state and retransmits unreleased publishes',
+ 'level_text': 'RUN-LEVEL Coq theorems (EngineProofs/Inbound*.v, for an ARBITRARY start state and any decoder / resolver / validator / encoder; only premise: '
+               'no step of the history panicked, discharged for the concrete instance from the initial state by C05_instance_refines via the well-formedness '
+               'development): C05_q2in_refines - after every event history the set of unreleased inbound QoS 2 ids equals (as a list) the abstract specification '
+               'q2_spec folded over the log of packets the engine actually handed to its handlers (+ processed QoS 2 PUBLISH, - processed PUBREL, cleared by an '
+               'accepted session-absent CONNACK and by reset; submissions, open, close, write completion, service, timer queries and all other packets change '
+               'nothing; packets after the first failure of a data call are not processed); C05_events_refine - the packet events surfaced over the history are '
+               'exactly, in order, every processed QoS 0/1 PUBLISH, every processed QoS 2 PUBLISH whose id is not in the set at that moment (topic as resolved by '
+               'the inbound alias resolver), every successful or refusing awaited CONNACK and every accepted server DISCONNECT; C05_qos2_surfaced_once(_between) - '
+               'between two releases of an id (PUBREL / session-absent CONNACK / reset) at most one QoS 2 publish with that id is surfaced, over closes and '
+               'session-present reconnects too; C05_packet_loop_refines / C05_data_appends_acks / C05_ack_operation_created - a data call appends to the BACK of '
+               'the high-priority queue, in packet order, exactly one fresh PUBACK(id) per processed QoS 1 PUBLISH, one PUBREC(id) per processed QoS 2 PUBLISH '
+               '(new or duplicate), one PUBCOMP(id, reason 0 even for an unknown id) per processed PUBREL, plus the PUBREL carrier of an outbound QoS 2 publish '
+               'whose PUBREC arrived, and nothing else; C05_hq_step_shape / C05_acks_fifo_step / C05_dequeue_takes_head - every step only pushes at the front '
+               '(DISCONNECT, CONNECT, PINGREQ), removes a prefix (service takes the head, close / reset drop all) or appends at the back, so entries keep '
+               'their order and leave from the head. ONE-STEP theorems for every state (C05_qos1_puback ... C05_close_keeps_inbound_qos2) as before. '
+               'NOT proved in Coq: that a queued acknowledgement operation is encoded to the wire unchanged (service loop + codec: C02/C10) and is still in the '
+               'operation table when dequeued, and the last step from the FIFO queue to the order of bytes on the wire; these, and the whole property on the '
+               'IMPLEMENTATION, are the monitors mon_c05_acks / mon_c05_deliver on the implementation trace (lock-step with the extracted model), against a '
+               'simulated broker that keeps its inbound QoS 2 session state and retransmits unreleased publishes',
  'technique': 'machine-checked proof in Coq over the engine model + lock-step correspondence of the extracted model with the implementation + extracted '
               'monitors on the implementation trace'}
